@@ -620,6 +620,28 @@ def into_records(inst_text, conv_text):
     if not m: refuse(W, f"hashmap_to_txt: {b[:200]}")
     return {'order': order, 'v4': list(v4), 'v6': list(v6), 'srv': list(srv), 'txtClass': m.group(1)}
 
+# ------------------------------------------------------------------ name.rs: the loop of Name::parse
+def name_parse(text):
+    W = 'name.rs: Name::parse'
+    b = block_after(text, r"\bfn parse\(data:&'a\[u8\],position:&mut usize\)->crate::Result<Self>where Self:Sized,?", W)
+    E = r'\{return Err\(crate::SimpleDnsError::\w+\);\}'
+    m = re.match(r'let mut following_compression_pointer=false;let mut labels=Vec::new\(\);let mut pointer_position=\*position;let mut name_size=(?P<size0>\d+)usize;'
+                 r'loop\{if\*position>=data\.len\(\)\|\|pointer_position>=data\.len\(\)' + E +
+                 r'if name_size(?P<sizeop>>=|>)MAX_NAME_LENGTH' + E +
+                 r'match data\[pointer_position\]\{0=>\{\*position\+=1;break;\}'
+                 r'len if len&POINTER_MASK==POINTER_MASK=>\{if!following_compression_pointer\{\*position\+=(?P<posptr>\d+);\}following_compression_pointer=true;'
+                 r'if pointer_position\+(?P<ptrneed>\d+)(?P<ptrop>>=|>)data\.len\(\)' + E +
+                 r'let pointer=\(u16::from_be_bytes\(data\[pointer_position\.\.pointer_position\+2\]\.try_into\(\)\?,?\)&!POINTER_MASK_U16\)as usize;'
+                 r'if pointer(?P<backop>>=|>)pointer_position' + E + r'pointer_position=pointer;\}'
+                 r'len=>\{name_size\+=(?P<sizeadd>\d+)\+len as usize;if pointer_position\+(?P<labneed>\d+)\+len as usize(?P<labop>>=|>)data\.len\(\)' + E +
+                 r'if len as usize(?P<maxop>>=|>)MAX_LABEL_LENGTH' + E +
+                 r'labels\.push\(Label::new_unchecked\(&data\[pointer_position\+1\.\.pointer_position\+1\+len as usize\],?\)\);'
+                 r'if!following_compression_pointer\{\*position\+=len as usize\+(?P<poslab>\d+);\}pointer_position\+=len as usize\+(?P<pplab>\d+);\}\}\}Ok\(Self\{labels\}\)$', b)
+    if not m: refuse(W, f"body not recognised: {b[:300]}")
+    g = m.groupdict()
+    return {'nums': [int(g[k]) for k in ('size0', 'ptrneed', 'sizeadd', 'labneed', 'poslab', 'pplab', 'posptr')],
+            'ops': [g[k] for k in ('sizeop', 'ptrop', 'backop', 'labop', 'maxop')]}
+
 # ------------------------------------------------------------------ name.rs: the relations between names
 def name_relations(text):
     W = 'name.rs: is_link_local / is_subdomain_of / without'
@@ -772,6 +794,7 @@ def generate(repo):
         if files['inst'] is None or files['conv'] is None: refuse('into_records', 'file not found')
         return into_records(files['inst'], files['conv'])
     ir = attempt('mdns.into_records', _ir)
+    npz = attempt('name.parse', need('name', name_parse))
     files['modrs'] = read('simple-dns/src/dns/mod.rs')
     qo = attempt('codes.question_codes_out', need('modrs', qcodes_out))
     mw = attempt('packet.message_writer', need('p', message_writer))
@@ -898,6 +921,9 @@ def generate(repo):
           "def intoRecordsV6 : Option (List String) := " + ('none' if ir is None else 'some ' + strs(ir['v6'])),
           "def intoRecordsSrv : Option (String × Nat × Nat) := " + ('none' if ir is None else f"some ({q(ir['srv'][0])}, {ir['srv'][1]}, {ir['srv'][2]})"),
           "def intoRecordsTxtClass : Option String := " + ('none' if ir is None else 'some ' + q(ir['txtClass'])),
+          "/-- the loop of `Name::parse`: [initial name_size, octets a pointer needs, what a label adds to name_size besides its length, octets a label needs besides its length, what a label advances `*position` / `pointer_position` by besides its length, what the first pointer advances `*position` by]; the comparisons [name_size ? MAX_NAME_LENGTH, pointer end ? data.len(), pointer ? pointer_position, label end ? data.len(), len ? MAX_LABEL_LENGTH] (each one leads to an error) -/",
+          "def nameParseNums : Option (List Nat) := " + ('none' if npz is None else 'some [' + ', '.join(str(x) for x in npz['nums']) + ']'),
+          "def nameParseOps : Option (List String) := " + ('none' if npz is None else 'some ' + strs(npz['ops'])),
           "/-- `From<QTYPE> for u16` and `From<QCLASS> for u16` (the codes the writers emit): (variant, code; `none` for the arm that converts the wrapped TYPE / CLASS) -/",
           "def qtypeToCode : Option (List (String × Option Nat)) := " + ('none' if qo is None else 'some [' + ', '.join(f'({q(a)}, {"none" if b == "inner" else "some " + b})' for a, b in qo['QTYPE']) + ']'),
           "def qclassToCode : Option (List (String × Option Nat)) := " + ('none' if qo is None else 'some [' + ', '.join(f'({q(a)}, {"none" if b == "inner" else "some " + b})' for a, b in qo['QCLASS']) + ']'),
